@@ -258,41 +258,84 @@ def noise(repo, chk):
                    f'`{base}` can alias the input array X (no copy is made on every input, e.g. np.asarray does not copy an array that already has the requested dtype): noise is written into the caller\'s data set and a repeated call accumulates markers')
     chk.require_count('cell stores in generate_noise', n_w, 2)
     # k = int(n * p), distinct cells
-    ks = [n for n in own_nodes(fn.node) if isinstance(n, ast.Assign) and isinstance(n.targets[0], ast.Name) and ast.unparse(n.value) == 'int(n * p)']
+    pname = [q for q in fn.params if q != 'self'][2]
+    widths = {n.targets[0].id for n in own_nodes(fn.node) if isinstance(n, ast.Assign) and isinstance(n.targets[0], ast.Name) and ast.unparse(n.value).endswith('.shape[1]')}
+
+    def _is_k(v):
+        return isinstance(v, ast.Call) and isinstance(v.func, ast.Name) and v.func.id == 'int' and len(v.args) == 1 and isinstance(v.args[0], ast.BinOp) and isinstance(v.args[0].op, ast.Mult) \
+            and {type(v.args[0].left), type(v.args[0].right)} == {ast.Name} and {v.args[0].left.id, v.args[0].right.id} & widths and pname in (v.args[0].left.id, v.args[0].right.id)
+    ks = [n for n in own_nodes(fn.node) if isinstance(n, ast.Assign) and isinstance(n.targets[0], ast.Name) and _is_k(n.value)]
+    knames = {k.targets[0].id for k in ks}
     chk.expect(len(ks) == 2, 'C20.5b', 'R15', fn.site(ks[0]) if ks else fn.site(), f'{[ast.unparse(k) for k in ks]}', 'number of noisy cells per feature is floor(n * p)', 'the number of altered cells per feature must be int(n * p) for both noise types')
-    ch = [c for c in calls(fn, dotted='numpy.random.choice') if len(c.args) >= 2 and ast.unparse(c.args[0]) == 'n']
-    ok_ch = len(ch) == 2 and all(any(k.arg == 'replace' and isinstance(k.value, ast.Constant) and k.value.value is False for k in c.keywords) and ast.unparse(c.args[1]) in ('n_flip', 'n_missing') for c in ch)
+    ch = [c for c in calls(fn, dotted='numpy.random.choice') if len(c.args) >= 2 and isinstance(c.args[0], ast.Name) and c.args[0].id in widths]
+    ok_ch = len(ch) == 2 and all(any(k.arg == 'replace' and isinstance(k.value, ast.Constant) and k.value.value is False for k in c.keywords) and ast.unparse(c.args[1]) in knames for c in ch)
     chk.expect(ok_ch, 'C20.5c', 'R15', fn.site(ch[0]) if ch else fn.site(), '; '.join(ast.unparse(c) for c in ch), 'cells are chosen without replacement (distinct cells: exactly k markers, at most k changes)', 'cells must be chosen by np.random.choice(n, k, replace=False)')
     # replacement values originate from np.unique of the same feature
-    us = [c for c in calls(fn, dotted='numpy.unique') if c.args and ast.unparse(c.args[0]).startswith('feature[')]
-    vals = [c for c in calls(fn, dotted='numpy.random.choice') if c.args and ast.unparse(c.args[0]) == 'list(values)']
+    rowvars = {l.target.id for l in own_nodes(fn.node) if isinstance(l, ast.For) and isinstance(l.target, ast.Name) and isinstance(l.iter, ast.Name) and l.iter.id in own}
+    us = [c for c in calls(fn, dotted='numpy.unique') if c.args and isinstance(c.args[0], ast.Subscript) and isinstance(c.args[0].value, ast.Name) and c.args[0].value.id in rowvars]
+    vals = [c for c in calls(fn, dotted='numpy.random.choice') if len(c.args) == 1 and isinstance(c.args[0], ast.Call) and isinstance(c.args[0].func, ast.Name) and c.args[0].func.id == 'list']
     chk.expect(len(us) == 2 and len(vals) == 2, 'C20.5d', 'origin', fn.site(us[0]) if us else fn.site(), f'{len(us)} np.unique(feature[...]) domains; {len(vals)} draws from them', 'replacement values come from the feature\'s own observed values', 'replacement values must be drawn from np.unique of the same feature')
     # missing: marker written
-    mk = [w for w in writes if ast.unparse(w.value) == 'missing_val']
+    mparam = [q for q in fn.params if q != 'self'][4] if len([q for q in fn.params if q != 'self']) > 4 else 'missing_val'
+    mk = [w for w in writes if ast.unparse(w.value) == mparam]
     chk.expect(len(mk) == 1, 'C20.5e', 'R15', fn.site(mk[0]) if mk else fn.site(), ast.unparse(mk[0]) if mk else 'feature[ix] = missing_val', 'missing-type noise writes the marker', 'missing-type noise must write missing_val into the chosen cells')
 
 
 def downsample(repo, chk):
     fn = repo.func(CC, f'{CLS}.downsample_dataset')
     m = fn.module
-    lcs = [n for n in own_nodes(fn.node) if isinstance(n, ast.ListComp) and 'y[i]' in ast.unparse(n)]
-    ok_f = len(lcs) == 1 and ast.unparse(lcs[0]).replace(' ', '') == '[X[i]foriinrange(len(y))ify[i]==label]'
-    chk.expect(ok_f, 'C20.6a', 'R15', fn.site(lcs[0]) if lcs else fn.site(), ast.unparse(lcs[0]) if lcs else '', 'candidates of a class are exactly the rows with that label', 'per class, candidates must be [X[i] for i in range(len(y)) if y[i] == label]')
-    rs = [c for c in calls(fn, dotted='sklearn.utils.resample')]
-    ok_r = len(rs) == 1 and ast.unparse(rs[0].args[0]) == 'X_label' and {k.arg: ast.unparse(k.value) for k in rs[0].keywords}.get('n_samples') == 'n' and {k.arg: ast.unparse(k.value) for k in rs[0].keywords}.get('random_state') == 'seed'
+    E = lambda s: expected_term(m, s)
+    Xp, yp, np_, seedp = [q for q in fn.params if q != 'self'][:4]
+    par = parents(fn.node)
+    loops = [n for n in own_nodes(fn.node) if isinstance(n, ast.For) and isinstance(n.target, ast.Name) and isinstance(n.iter, ast.Name)]
+    cls_loop = None
+    for lp in loops:
+        d = [n for n in own_nodes(fn.node) if isinstance(n, ast.Assign) and isinstance(n.targets[0], ast.Tuple) and any(isinstance(e, ast.Name) and e.id == lp.iter.id for e in n.targets[0].elts) and 'np.unique' in ast.unparse(n.value) and yp in ast.unparse(n.value)]
+        if d and isinstance(d[0].targets[0].elts[0], ast.Name) and d[0].targets[0].elts[0].id == lp.iter.id:
+            cls_loop = lp
+    chk.expect(cls_loop is not None, 'C20.6d', 'R13', fn.site(cls_loop) if cls_loop is not None else fn.site(), 'for label in values (np.unique(y))', 'every class is sampled', 'every class of y must be sampled (loop over the values of np.unique(y))')
+    if cls_loop is None:
+        return
+    label = cls_loop.target.id
+    lcs = [n for n in ast.walk(cls_loop) if isinstance(n, ast.ListComp)]
+    ok_f = False
+    cand_name = None
+    for lc in lcs:
+        g = lc.generators[0]
+        if isinstance(g.target, ast.Name) and len(g.ifs) == 1:
+            i = g.target.id
+            if ast.unparse(lc.elt) == f'{Xp}[{i}]' and term_of(fn, g.iter, inline=False) in (E(f'range(len({yp}))'), E(f'range(len({Xp}))')) and term_of(fn, g.ifs[0], inline=False) == E(f'{yp}[{i}] == {label}'):
+                ok_f = True
+                st = par.get(lc)
+                cand_name = st.targets[0].id if isinstance(st, ast.Assign) and isinstance(st.targets[0], ast.Name) else None
+    chk.expect(ok_f, 'C20.6a', 'R15', fn.site(lcs[0]) if lcs else fn.site(cls_loop), ast.unparse(lcs[0]) if lcs else '', 'candidates of a class are exactly the rows with that label', f'per class, candidates must be [X[i] for i in range(len(y)) if y[i] == {label}]')
+    rs = [c for c in ast.walk(cls_loop) if isinstance(c, ast.Call) and m.dotted(c.func) == 'sklearn.utils.resample']
+    kw = {k.arg: ast.unparse(k.value) for k in rs[0].keywords} if rs else {}
+    ok_r = len(rs) == 1 and rs[0].args and ast.unparse(rs[0].args[0]) == cand_name and kw.get('n_samples') == np_ and kw.get('random_state') == seedp
     chk.expect(ok_r, 'C20.6b', 'R15', fn.site(rs[0]) if rs else fn.site(), ast.unparse(rs[0]).replace('\n', ' ')[:120] if rs else '', 'n rows are drawn from the class, reproducibly', 'resample must draw n_samples=n rows from the class candidates with random_state=seed')
-    ys = [n for n in own_nodes(fn.node) if isinstance(n, ast.Assign) and ast.unparse(n.value) == '[label] * n']
-    chk.expect(len(ys) == 1, 'C20.6c', 'R15', fn.site(ys[0]) if ys else fn.site(), 'ys = [label] * n', 'n labels of that class', 'labels of the down-sampled rows must be [label] * n')
-    loops = [n for n in own_nodes(fn.node) if isinstance(n, ast.For) and ast.unparse(n.iter) == 'values']
-    chk.expect(len(loops) == 1 and 'np.unique(y, return_counts=True)' in ast.unparse(fn.node), 'C20.6d', 'R13', fn.site(loops[0]) if loops else fn.site(), 'for label in values (np.unique(y))', 'every class is sampled', 'every class of y must be sampled')
+    ys = [n for n in ast.walk(cls_loop) if isinstance(n, ast.Assign) and term_of(fn, n.value, inline=False) in (E(f'[{label}] * {np_}'), E(f'{np_} * [{label}]'))]
+    chk.expect(len(ys) == 1, 'C20.6c', 'R15', fn.site(ys[0]) if ys else fn.site(cls_loop), f'[{label}] * {np_}', 'n labels of that class', f'labels of the down-sampled rows must be [{label}] * {np_} for every class')
+    # accumulation and result
     r = returns(fn)
-    chk.expect(len(r) == 1 and ast.unparse(r[0].value) == '(X_downsampled, y_downsampled)', 'C20.6f', 'R6', fn.site(r[0]) if r else fn.site(), ast.unparse(r[0]) if r else '', 'returns (rows, labels)', 'downsample_dataset must return (X_downsampled, y_downsampled) in this order')
-    acc = [c for c in calls(fn, attr='append') if ast.unparse(c) == 'X_arrays_list.append(X_label_downsample)']
-    cat = [n for n in own_nodes(fn.node) if isinstance(n, ast.Assign) and ast.unparse(n) in ('X_downsampled = np.concatenate(X_arrays_list, axis=0)', 'X_downsampled = np.concatenate(X_arrays_list)', 'X_downsampled = np.vstack(X_arrays_list)')]
-    ycat = [n for n in own_nodes(fn.node) if isinstance(n, ast.Assign) and ast.unparse(n).replace(', axis=0', '') == 'y_downsampled = np.concatenate((y_downsampled, ys))']
-    chk.expect(len(acc) == 1 and len(cat) == 1 and len(ycat) == 1, 'C20.6g', 'R13', fn.site(acc[0]) if acc else fn.site(), 'per class: rows appended, labels concatenated; result = concatenation over the classes', 'the result holds the n rows and n labels of every class', 'the per-class samples and labels must be accumulated and concatenated over all classes')
-    g = [n for n in own_nodes(fn.node) if isinstance(n, ast.If) and 'min(counts)' in ast.unparse(n.test) and any(isinstance(x, ast.Raise) for x in n.body)]
-    chk.expect(len(g) == 1 and ast.unparse(g[0].test) == 'n > min(counts)', 'C20.6e', 'R14', fn.site(g[0]) if g else fn.site(), ast.unparse(g[0].test) if g else '', 'n larger than the minority class is rejected', 'n > min(counts) must be rejected')
+    ok_ret = False
+    if len(r) == 1 and isinstance(r[0].value, ast.Tuple) and len(r[0].value.elts) == 2 and all(isinstance(e, ast.Name) for e in r[0].value.elts):
+        xa, ya = [e.id for e in r[0].value.elts]
+        res_name = None
+        if rs:
+            st = par.get(rs[0])
+            res_name = st.targets[0].id if isinstance(st, ast.Assign) and isinstance(st.targets[0], ast.Name) else None
+        coll = [c for c in ast.walk(cls_loop) if isinstance(c, ast.Call) and isinstance(c.func, ast.Attribute) and c.func.attr == 'append' and c.args and ast.unparse(c.args[0]) == res_name and isinstance(c.func.value, ast.Name)]
+        lst = coll[0].func.value.id if coll else None
+        xdefs = [n for n in own_nodes(fn.node) if isinstance(n, ast.Assign) and isinstance(n.targets[0], ast.Name) and n.targets[0].id == xa and lst and f'({lst}' in ast.unparse(n.value) and ('concatenate' in ast.unparse(n.value) or 'vstack' in ast.unparse(n.value))]
+        yacc = [n for n in ast.walk(cls_loop) if isinstance(n, ast.Assign) and isinstance(n.targets[0], ast.Name) and n.targets[0].id == ya and ys and ys[0].targets[0].id in ast.unparse(n.value) and ya in ast.unparse(n.value) and 'concatenate' in ast.unparse(n.value)]
+        ok_ret = bool(coll) and bool(xdefs) and bool(yacc)
+    chk.expect(ok_ret, 'C20.6f', 'R6', fn.site(r[0]) if r else fn.site(), ast.unparse(r[0]) if r else '', 'returns (concatenated per-class rows, concatenated per-class labels)', 'downsample_dataset must return (rows of all classes concatenated, labels of all classes concatenated) in this order')
+    g = [n for n in own_nodes(fn.node) if isinstance(n, ast.If) and any(isinstance(x, ast.Raise) for x in n.body) and np_ in ast.unparse(n.test) and 'min(' in ast.unparse(n.test)]
+    cname = None
+    for n in own_nodes(fn.node):
+        if isinstance(n, ast.Assign) and isinstance(n.targets[0], ast.Tuple) and 'np.unique' in ast.unparse(n.value) and len(n.targets[0].elts) == 2 and isinstance(n.targets[0].elts[1], ast.Name):
+            cname = n.targets[0].elts[1].id
+    chk.expect(len(g) == 1 and term_of(fn, g[0].test, inline=False) == E(f'{np_} > min({cname})'), 'C20.6e', 'R14', fn.site(g[0]) if g else fn.site(), ast.unparse(g[0].test) if g else '', 'n larger than the minority class is rejected', 'n > min(counts) must be rejected')
 
 
 def _sibling_branches(par, a, b):
